@@ -356,8 +356,14 @@ package wire
 
 //@ spec ackcovers(f *AckFrame, p int64) bool = exists(k, 0, len(f.AckRanges), f.AckRanges[k].Smallest <= p && p <= f.AckRanges[k].Largest, trig(f.AckRanges, k))
 
+//@ func (f *AckFrame) AcksPacket$1
+//@   props C06 C07 C08
+//@   requires f != nil && 0 <= i && i < len(f.AckRanges)
+//@   ensures result == (p >= f.AckRanges[i].Smallest)
+//@   modifies nothing
+
 //@ func (f *AckFrame) AcksPacket
-//@   trusted binary search through sort.Search with a closure; contract stated from the documented behaviour, checked by the thorough-tier conformance test
+//@   props C06 C07 C08
 //@   requires f.rangesValid()
 //@   ensures [iff] iff(result, ackcovers(f, p))
 //@   modifies nothing
